@@ -291,3 +291,54 @@ func bitIndex(v uint32) int {
 
 	return 31
 }
+
+// CanonKey identifies the rule a spec denotes, independent of how it is
+// written: modifier order, the order of content types and document-level
+// options, the letter case of record type names, the order and spelling of
+// tags and clients (the library sorts those) do not matter; the order of
+// $domain and $denyallow values does (the library compares them as lists).
+func (s *Spec) CanonKey() string {
+	c := s.Clone()
+	sort.Strings(c.TypesP)
+	sort.Strings(c.TypesR)
+	sort.Strings(c.DocOpts)
+	c.DocOpts = dedupSorted(c.DocOpts)
+	c.TypesP = dedupSorted(c.TypesP)
+	c.TypesR = dedupSorted(c.TypesR)
+	for i := range c.DNSTypes {
+		c.DNSTypes[i].Name = strings.ToUpper(c.DNSTypes[i].Name)
+	}
+	sort.Slice(c.CTags, func(i, j int) bool {
+		if c.CTags[i].Neg != c.CTags[j].Neg {
+			return !c.CTags[i].Neg
+		}
+
+		return c.CTags[i].Name < c.CTags[j].Name
+	})
+	for i := range c.Clients {
+		if c.Clients[i].IsNet {
+			c.Clients[i].Text = c.Clients[i].Prefix.String()
+		} else {
+			c.Clients[i].Text = "name:" + c.Clients[i].Name
+		}
+	}
+	sort.Slice(c.Clients, func(i, j int) bool {
+		if c.Clients[i].Neg != c.Clients[j].Neg {
+			return !c.Clients[i].Neg
+		}
+
+		return c.Clients[i].Text < c.Clients[j].Text
+	})
+
+	return c.Render(nil)
+}
+
+func dedupSorted(in []string) (out []string) {
+	for i, v := range in {
+		if i == 0 || v != in[i-1] {
+			out = append(out, v)
+		}
+	}
+
+	return out
+}
